@@ -1,4 +1,5 @@
 import DateutilVerif.Properties.C08
+import DateutilVerif.Properties.C08NoRule   -- strings without a rule part: the default-rule branch of tzstr._delta
 import DateutilVerif.Properties.C08Pure   -- one object, many calls: answers are a function of the constructor arguments and the query
 import DateutilVerif.Properties.TzGen   -- translator tie (wt-iso): obligations about the re-translated lookup functions
 import DateutilVerif.Properties.TzObjGen   -- translator tie (wt-iso): tzrange/tzstr construction
@@ -42,3 +43,7 @@ import DateutilVerif.Properties.TzObjGen   -- translator tie (wt-iso): tzrange/t
 #print axioms C08.range_answers_pure
 #print axioms C08.tzstr_answers_pure
 #print axioms C08.same_arguments_same_answers
+#print axioms C08.default_rule_delta
+#print axioms C08.default_end_seconds
+#print axioms C08.tzstr_norule_zone
+#print axioms C08.tzstr_norule_posix
